@@ -1496,13 +1496,17 @@ func genC16(g *gen) {
 		cg.config(c)
 		c.mode = "file"
 		nl := []int{0, 1, c.n - 1, c.n, c.n + 1, 2 * c.n, 2*c.n + 1, 3 * c.n, g.r.Intn(4*c.n + 1)}[g.r.Intn(9)]
+		if i%3 == 2 {
+			// a key file longer than the line scanner's buffer (4 KiB to start with, refilled as the scan proceeds)
+			nl = []int{230, 450, 1100}[g.r.Intn(3)]
+		}
 		kp := g.r.Perm(len(c16Keys))
 		c.file = nil
 		for j := 0; j < nl; j++ {
 			if j < len(kp) {
 				c.file = append(c.file, c16Keys[kp[j]])
 			} else {
-				c.file = append(c.file, fmt.Sprintf("pad%d", j))
+				c.file = append(c.file, fmt.Sprintf("pad%d:%s", j, strings.Repeat("x", 6+j%13)))
 			}
 		}
 		for j := 0; j < per/2; j++ {
